@@ -430,7 +430,7 @@ def socket_case(arg):
                         break
                 else:
                     oc.inc("socket_images_ok")
-                if b"sock" not in res.err.lower() and b"skip" not in res.err.lower():
+                if not res.err.strip():      # "skipped with a warning": any message will do
                     oc.violate("sqfs2tar:sockets:no-warning", "stderr %r" % res.err[-200:])
         oc.sample = {"case": "sockets-%d" % idx, "long_dir": len(long_dir)}
     except Exception:
